@@ -239,6 +239,8 @@ theorem localEvaluate_total (cfg : LocalCfg) (s : Local) (score : F) :
         | dist _ _ => exact Or.inr ⟨trivial, hle, by intro a b c; simp⟩
         | rnd _ => exact Or.inr ⟨trivial, hle, by intro a b c; simp⟩
         | feas _ _ => exact Or.inr ⟨trivial, hle, by intro a b c; simp⟩
+        | part _ _ => exact Or.inr ⟨trivial, hle, by intro a b c; simp⟩
+        | spiral _ => exact Or.inr ⟨trivial, hle, by intro a b c; simp⟩
     · rw [if_neg hle]
       exact Or.inl ⟨_, rfl⟩
 
